@@ -123,6 +123,11 @@ func ruleJoinBeforeHandover(c *eng.Ctx) {
 }
 
 func runC02(c *eng.Ctx) {
+	c.Rule("R05.8", "K2")
+	ruleRecoveredEpochStartsAtItsFirstMessage(c)
+	c.Rule("R02.4", "K4")
+	ruleReplicatorOwnsItsHeaderBuffer(c)
+	ruleReplicationRequestCheckedAndServedInOneSection(c)
 	c.Rule("R04.7", "K2")
 	ruleFreshCommitQueuePerTerm(c)
 
